@@ -96,8 +96,69 @@ fn mutate_block(rng: &mut Rng, chain: &Chain, b: &packed::Block) -> Option<(pack
     }
 }
 
+/// the v1 extra fields (uncles hash and extension per returned block: together with the header's extra_hash they bind the extension
+/// that is stored next to a fetched header) edited, dropped or added, everything else authentic
+fn mutate_v1_fields(rng: &mut Rng, uncles: Vec<Byte32>, exts: Vec<packed::BytesOpt>) -> Option<(Vec<Byte32>, Vec<packed::BytesOpt>, &'static str)> {
+    if uncles.is_empty() {
+        return None;
+    }
+    let i = rng.pick_idx(uncles.len());
+    let (mut u2, mut e2) = (uncles.clone(), exts.clone());
+    let name = match rng.below(5) {
+        0 => {
+            u2[i] = Byte32::new(rand32(rng));
+            "v1-uncles-hash-edited"
+        }
+        1 => {
+            // another extension (also for a block that has none): the header's extra_hash does not commit to it
+            let mut b = exts[i].to_opt().map(|x| x.raw_data().to_vec()).unwrap_or_default();
+            if b.is_empty() {
+                b = rand32(rng).to_vec();
+            } else {
+                let p = rng.pick_idx(b.len());
+                b[p] ^= 0x40;
+            }
+            e2[i] = Pack::pack(&Some(Pack::<packed::Bytes>::pack(&b[..])));
+            "v1-extension-edited"
+        }
+        2 => {
+            if exts[i].to_opt().is_none() {
+                return None;
+            }
+            e2[i] = packed::BytesOpt::default();
+            "v1-extension-dropped"
+        }
+        3 => {
+            u2.pop();
+            "v1-uncles-hash-count-mismatch"
+        }
+        _ => {
+            e2.push(packed::BytesOpt::default());
+            "v1-extension-count-mismatch"
+        }
+    };
+    Some((u2, e2, name))
+}
+
 fn mutate_proof_answer(rng: &mut Rng, chain: &Chain, data: &[u8]) -> Option<(Vec<u8>, String)> {
     let m = packed::LightClientMessageReader::from_compatible_slice(data).ok()?;
+    if rng.chance(1, 4) {
+        match m.to_enum() {
+            packed::LightClientMessageUnionReader::SendBlocksProof(r) if r.count_extra_fields() >= 2 => {
+                let e = packed::SendBlocksProofV1::from_compatible_slice(r.as_slice()).ok()?;
+                let (u2, e2, name) = mutate_v1_fields(rng, e.blocks_uncles_hash().into_iter().collect(), e.blocks_extension().into_iter().collect())?;
+                let m2 = e.as_builder().blocks_uncles_hash(u2.pack()).blocks_extension(packed::BytesOptVec::new_builder().set(e2).build()).build();
+                return Some((server::lc_raw_union(packed::SendBlocksProof::default().into(), m2.as_slice()).to_vec(), format!("SendBlocksProof|{}", name)));
+            }
+            packed::LightClientMessageUnionReader::SendTransactionsProof(r) if r.count_extra_fields() >= 2 => {
+                let e = packed::SendTransactionsProofV1::from_compatible_slice(r.as_slice()).ok()?;
+                let (u2, e2, name) = mutate_v1_fields(rng, e.blocks_uncles_hash().into_iter().collect(), e.blocks_extension().into_iter().collect())?;
+                let m2 = e.as_builder().blocks_uncles_hash(u2.pack()).blocks_extension(packed::BytesOptVec::new_builder().set(e2).build()).build();
+                return Some((server::lc_raw_union(packed::SendTransactionsProof::default().into(), m2.as_slice()).to_vec(), format!("SendTransactionsProof|{}", name)));
+            }
+            _ => {}
+        }
+    }
     match m.to_enum() {
         packed::LightClientMessageUnionReader::SendBlocksProof(r) => {
             let e = packed::SendBlocksProof::from_compatible_slice(r.as_slice()).ok()?;
